@@ -25,6 +25,10 @@ pub struct ColDef {
 pub struct TableDef {
     pub name: String,
     pub cols: Vec<ColDef>,
+    /// when not empty: the key is declared by the table constraint `primary key(..)` over these
+    /// columns (in this order) instead of inline on the column
+    #[serde(default)]
+    pub table_pk: Vec<usize>,
 }
 
 impl TableDef {
@@ -39,14 +43,19 @@ impl TableDef {
                     Ty::Str => "varchar",
                 };
                 let mut s = format!("{} {}", c.name, t);
-                if c.pk {
+                if c.pk && self.table_pk.is_empty() {
                     s.push_str(" primary key");
-                } else if !c.nullable {
+                } else if !c.nullable && !c.pk {
                     s.push_str(" not null");
                 }
                 s
             })
             .collect();
+        let mut cols = cols;
+        if !self.table_pk.is_empty() {
+            let names: Vec<&str> = self.table_pk.iter().map(|i| self.cols[*i].name.as_str()).collect();
+            cols.push(format!("primary key({})", names.join(", ")));
+        }
         format!("create table {}({})", self.name, cols.join(", "))
     }
     /// SQLite: no primary key / not null constraints (the data respects them by construction).
@@ -132,7 +141,8 @@ pub struct GenCfg {
     pub case_string: bool,
     /// CASE whose condition references no column (folds away)
     pub const_case_cond: bool,
-    /// `x + 0`, `0 + x`, `x - 0`, `x * 1`, `1 * x`: expressions that simplify to their operand
+    /// `x + 0`, `0 + x`, `x - 0`, `x * 1`, `1 * x`, `x or x`, `x and x`, `x and true`, `x or false`:
+    /// expressions that simplify to their operand
     pub arith_identity: bool,
     /// join conditions with a conjunct that references no column (folds to a constant)
     pub const_join_cond: bool,
@@ -150,6 +160,15 @@ pub struct GenCfg {
     pub correlated_not_in: bool,
     /// ORDER BY keys that are not in the select list
     pub order_non_selected: bool,
+    /// ORDER BY inside a derived table (no LIMIT): the plan keeps the sort, operators above may
+    /// rely on it (sort aggregation, merge join)
+    pub derived_order: bool,
+    /// keys declared by the table constraint `primary key(a[, b])`
+    pub table_level_pk: bool,
+    /// deliberately ill-formed: a column outside any aggregate that is not a GROUP BY key. The
+    /// binder must reject such a statement; only C17 (is every *accepted* statement executable?)
+    /// generates them
+    pub ungrouped_items: bool,
     pub max_depth: usize,
 }
 
@@ -198,6 +217,9 @@ impl GenCfg {
             scalar_subquery: true,
             correlated_not_in: true,
             order_non_selected: true,
+            derived_order: true,
+            table_level_pk: true,
+            ungrouped_items: false,
             max_depth: 3,
         }
     }
@@ -214,7 +236,7 @@ pub fn gen_schema(t: &mut Tape, cfg: &GenCfg) -> Vec<TableDef> {
     (0..nt)
         .map(|ti| {
             let nc = t.range(1, cfg.max_cols);
-            let pk_at = if cfg.pk && t.chance(1, 3) { Some(t.pick(nc)) } else { None };
+            let pk_at = if cfg.pk && t.chance(2, 5) { Some(t.pick(nc)) } else { None };
             let cols = (0..nc)
                 .map(|ci| {
                     let pk = pk_at == Some(ci);
@@ -228,9 +250,29 @@ pub fn gen_schema(t: &mut Tape, cfg: &GenCfg) -> Vec<TableDef> {
                     }
                 })
                 .collect();
+            let mut cols: Vec<ColDef> = cols;
+            // one key in three is declared by a table constraint, two thirds of those over two columns
+            let mut table_pk = vec![];
+            if let Some(p) = pk_at {
+                if cfg.table_level_pk && t.chance(1, 3) {
+                    table_pk.push(p);
+                    let others: Vec<usize> = (0..nc).filter(|i| *i != p && cols[*i].ty == Ty::Int).collect();
+                    if !others.is_empty() && t.chance(2, 3) {
+                        let j = others[t.pick(others.len())];
+                        cols[j].pk = true;
+                        cols[j].nullable = false;
+                        if t.chance(1, 3) {
+                            table_pk.insert(0, j);
+                        } else {
+                            table_pk.push(j);
+                        }
+                    }
+                }
+            }
             TableDef {
                 name: format!("t{ti}"),
                 cols,
+                table_pk,
             }
         })
         .collect()
@@ -301,6 +343,8 @@ pub enum E {
     Lit(Val, Ty),
     /// typed NULL
     Null(Ty),
+    /// a numeric literal written as given (`2.5`): only as a bound in comparisons with INT operands
+    Num(String),
     Bin(String, Box<E>, Box<E>),
     Not(Box<E>),
     Neg(Box<E>),
@@ -370,6 +414,7 @@ impl E {
                 Val::Int(i) if *i < 0 => format!("({i})"),
                 v => lit(v),
             },
+            E::Num(n) => n.clone(),
             E::Null(ty) => match (d, ty) {
                 (Dialect::Rl, Ty::Int) => "cast(null as int)".into(),
                 (Dialect::Rl, Ty::Bool) => "cast(null as boolean)".into(),
@@ -825,12 +870,39 @@ impl<'a, 'b> Gen<'a, 'b> {
         if allow_sub && self.cfg.subqueries {
             ws.extend([2, 2]);
         }
+        // two bounds on one INT column, constants of both numeric kinds (`x > 2.5 and x < 6`)
+        let ints = self.cols_of(scope, Ty::Int);
+        if !ints.is_empty() && self.t.chance(1, 12) {
+            let x = Self::col_expr(&ints[self.t.pick(ints.len())].clone());
+            let ops = [">", ">=", "<", "<="];
+            let bound = |g: &mut Self| {
+                let c = if g.t.chance(1, 3) {
+                    E::Num(["0.5", "1.5", "2.5", "-0.5", "2.0", "3.0", "0.0"][g.t.pick(7)].to_string())
+                } else {
+                    E::Lit(Val::Int(INT_DOM[g.t.pick(INT_DOM.len())]), Ty::Int)
+                };
+                E::Bin(ops[g.t.pick(4)].into(), Box::new(x.clone()), Box::new(c))
+            };
+            let (a, b) = (bound(self), bound(self));
+            let op = if self.t.chance(1, 5) { "or" } else { "and" };
+            return E::Bin(op.into(), Box::new(a), Box::new(b));
+        }
         match self.t.weighted(&ws) {
             0 => self.cmp(scope, outer, depth, allow_sub),
             1 => {
                 let op = ["and", "or"][self.t.pick(2)];
                 let a = self.expr(scope, outer, Ty::Bool, depth + 1, allow_sub);
                 let b = self.expr(scope, outer, Ty::Bool, depth + 1, allow_sub);
+                if !self.cfg.arith_identity {
+                    // `x or x`, `x and x`, `x and true`, `x or false` simplify to their operand too
+                    let neutral = E::Lit(Val::Bool(op == "and"), Ty::Bool);
+                    if a == b || b == neutral {
+                        return a;
+                    }
+                    if a == neutral {
+                        return b;
+                    }
+                }
                 E::Bin(op.into(), Box::new(a), Box::new(b))
             }
             2 => {
@@ -846,7 +918,17 @@ impl<'a, 'b> Gen<'a, 'b> {
                 let ty = [Ty::Int, Ty::Str][self.t.pick(2)];
                 let a = self.expr(scope, outer, ty, depth + 1, false);
                 let n = self.t.range(1, 3);
-                let l = (0..n).map(|_| self.literal(ty)).collect();
+                // list elements are literals, sometimes a column (`a in (c, 2)`)
+                let cols = self.cols_of(scope, ty);
+                let l = (0..n)
+                    .map(|_| {
+                        if !cols.is_empty() && self.t.chance(1, 5) {
+                            Self::col_expr(&cols[self.t.pick(cols.len())].clone())
+                        } else {
+                            self.literal(ty)
+                        }
+                    })
+                    .collect();
                 let neg = self.t.pick(3) == 2;
                 E::InList(Box::new(a), l, neg)
             }
@@ -1058,7 +1140,7 @@ impl<'a, 'b> Gen<'a, 'b> {
         let mut from: Vec<FromItem> = vec![];
         let mut scope: Vec<ScopeCol> = vec![];
         for i in 0..nfrom {
-            let (source, alias, cols) = if self.cfg.derived && depth == 0 && self.t.chance(1, 8) {
+            let (source, alias, cols) = if self.cfg.derived && depth == 0 && self.t.chance(1, 6) {
                 let q = self.derived_query(depth + 1);
                 let alias = self.fresh_alias("d");
                 let cols: Vec<ScopeCol> = q
@@ -1176,7 +1258,23 @@ impl<'a, 'b> Gen<'a, 'b> {
                 }
             }
             _ => {
-                let nk = self.t.range(1, 2);
+                // a derived table that is ordered: group by its sort column half of the time (the
+                // aggregation can then run as a sort aggregation over the kept order)
+                let ordered: Vec<(E, Ty)> = from
+                    .iter()
+                    // (not the right side of a semi/anti join: its columns are not in scope)
+                    .filter(|f| !matches!(f.join, Some((JoinKind::Semi | JoinKind::Anti, _))))
+                    .filter_map(|f| match &f.source {
+                        Source::Derived(q) => q.order_by.first().map(|(i, _)| (E::Col(f.alias.clone(), format!("x{i}"), q.select[*i].1), q.select[*i].1)),
+                        _ => None,
+                    })
+                    .collect();
+                if !ordered.is_empty() && self.t.chance(1, 2) {
+                    let (e, ty) = ordered[self.t.pick(ordered.len())].clone();
+                    group_by.push(e.clone());
+                    select.push((e, ty));
+                }
+                let nk = self.t.range(if group_by.is_empty() { 1 } else { 0 }, 2);
                 for _ in 0..nk {
                     let ty = [Ty::Int, Ty::Str, Ty::Bool][self.t.pick(3)];
                     let cols = self.cols_of(&scope, ty);
@@ -1215,6 +1313,14 @@ impl<'a, 'b> Gen<'a, 'b> {
                         }
                     }
                 }
+            }
+        }
+        if self.cfg.ungrouped_items && mode != 0 && self.t.chance(1, 8) {
+            let c = scope[self.t.pick(scope.len())].clone();
+            let e = Self::col_expr(&c);
+            if !group_by.contains(&e) {
+                let at = self.t.pick(select.len() + 1);
+                select.insert(at, (e, c.ty));
             }
         }
         // ORDER BY / LIMIT
@@ -1395,6 +1501,79 @@ impl<'a, 'b> Gen<'a, 'b> {
                 q.order_extra.clear();
             }
         }
+        if self.cfg.derived_order && (self.cfg.distinct_complex || !q.distinct) && self.t.chance(1, 4) {
+            let i = self.t.pick(q.select.len());
+            if self.cfg.distinct_complex || matches!(q.select[i].0, E::Col(..)) {
+                q.order_by.push((i, self.t.chance(1, 4)));
+            }
+        }
         q
     }
+}
+
+/// A single-table query that exercises the storage scan paths: a range on the INT primary key
+/// (pushed into the scan on disk), optionally ORDER BY the key (selected or not) and LIMIT/OFFSET.
+/// Keys near 0 and near 1000 are used by the callers' tables.
+pub fn key_range_query(t: &mut Tape, td: &TableDef) -> Option<Query> {
+    let pk = td.cols.iter().find(|c| c.pk && c.ty == Ty::Int)?;
+    let alias = "t1".to_string();
+    let col = |c: &ColDef| E::Col(alias.clone(), c.name.clone(), c.ty);
+    let key = col(pk);
+    let lit = |t: &mut Tape| {
+        let v = match t.pick(3) {
+            0 => t.pick(24) as i64,
+            1 => 1000 - t.pick(24) as i64,
+            _ => [500i64, -1, 1001, 0, 1000][t.pick(5)],
+        };
+        E::Lit(Val::Int(v), Ty::Int)
+    };
+    let ops = [">", ">=", "<", "<=", "="];
+    // the range is on the first key column (of a composite key too), or on none
+    let mut cond = None;
+    if t.chance(3, 4) {
+        let mut c = E::Bin(ops[t.pick(5)].into(), Box::new(key.clone()), Box::new(lit(t)));
+        if t.chance(1, 2) {
+            let c2 = E::Bin(ops[t.pick(4)].into(), Box::new(key.clone()), Box::new(lit(t)));
+            c = E::Bin("and".into(), Box::new(c), Box::new(c2));
+        }
+        cond = Some(c);
+    }
+    // the sort key: any key column (of a composite key often not the leading one), else any column
+    let keys: Vec<&ColDef> = td.cols.iter().filter(|c| c.pk).collect();
+    let okey = if t.chance(3, 4) { col(keys[t.pick(keys.len())]) } else { col(&td.cols[t.pick(td.cols.len())]) };
+    let okey_ty = td.cols.iter().find(|c| col(c) == okey).map(|c| c.ty).unwrap_or(Ty::Int);
+    // select list: a non-empty subset of the columns, in table order
+    let mut select: Vec<(E, Ty)> = td.cols.iter().filter(|_| t.chance(1, 2)).map(|c| (col(c), c.ty)).collect();
+    if select.is_empty() {
+        let c = &td.cols[t.pick(td.cols.len())];
+        select.push((col(c), c.ty));
+    }
+    let mut order_by = vec![];
+    let mut order_extra = vec![];
+    let (mut limit, mut offset) = (None, None);
+    if t.chance(2, 3) {
+        let desc = t.chance(1, 3);
+        match select.iter().position(|(e, _)| *e == okey) {
+            Some(i) => order_by.push((i, desc)),
+            None => order_extra.push((okey.clone(), okey_ty, desc)),
+        }
+        if t.chance(1, 3) {
+            limit = Some([1u64, 2, 3, 5][t.pick(4)]);
+        }
+        if t.chance(1, 5) {
+            offset = Some([1u64, 2, 4][t.pick(3)]);
+        }
+    }
+    Some(Query {
+        distinct: false,
+        select,
+        from: vec![FromItem { source: Source::Table(td.name.clone()), alias, join: None }],
+        where_: cond,
+        group_by: vec![],
+        having: None,
+        order_by,
+        order_extra,
+        limit,
+        offset,
+    })
 }
